@@ -2,6 +2,7 @@
 \* Sampling driver: one program per line of dice.ndjson ({"d": [[d1,d2,d3,d4], ...]}).
 EXTENDS PyScopeGen
 Seq2 == <<"x", "y">>
+Seq2C == <<"x", "y", "__class__">>
 Cases == ndJsonDeserialize("dice.ndjson")
 VARIABLES l, v
 Init == l \in 1..Len(Cases) /\ v = "todo"
